@@ -44,6 +44,18 @@ def run_property(prop, tier="quick", repo="/repo", evidence_dir=None, quiet=Fals
         from .rules_raise import one_shot_reuse
 
         one_shot_reuse(prog, rep, anchor_files(prop))
+        from .rules_raise import free_state
+
+        free_state(prog, rep, anchor_files(prop))
+        # the Event class is underneath every property that stores, copies, compares or does arithmetic on events: its setters
+        # normalise (NORMALISE, DURATION), deepcopy is the default protocol (COPY-PROTOCOL), its order is by timestamp (ORDER-KEY)
+        if prop not in ("C20",):
+            from .props.c13 import duration_dispatch, event_order, id_setter, normalisation
+            from .rules_own import copy_protocol
+
+            for rule_name, fn_ in (("NORMALISE", normalisation), ("DURATION", duration_dispatch), ("COPY-PROTOCOL", copy_protocol), ("ORDER-KEY", event_order), ("ID-SETTER", id_setter)):
+                if rule_name not in rep.rules:
+                    fn_(prog, rep)
         if tier == "thorough" and selftest and hasattr(mod, "VARIANTS"):
             from .selftest import run_selftest
 
